@@ -394,6 +394,15 @@ cli_arm!(c20_lean_usage_above_override, {
     w.test(U, 3, &["f"]); w.tests[0].before_defs = true;
     unused_lean(w)
 });
+/// @harness id=c20_lean_usage_below_override props=C20,C04 tier=quick unwind=17 mem=10 cap=1500
+/// U: the override `def f(f)` and BELOW it a test(f); parent f in C0: the override's own parameter uses the parent, the
+/// test uses the override — both are used exactly once, none is unused (the override's parameter is met first).
+cli_arm!(c20_lean_usage_below_override, {
+    let mut w = World::new(&[C0, U]);
+    w.def(C0, "f", 4); let i = w.def(U, "f", 4); w.defs[i].deps = vec!["f"];
+    w.test(U, 9, &["f"]);
+    unused_lean(w)
+});
 /// @harness id=c20_lean_shadowed_parent_unused props=C20,C04 tier=quick unwind=17 mem=10 cap=1500
 /// U overrides f WITHOUT requesting the parent and uses its own f: the parent in C0 is unused, the override is not.
 cli_arm!(c20_lean_shadowed_parent_unused, {
